@@ -319,6 +319,19 @@ def build_catalogue(check, seed, size):
         for gi, op in confusable_ts_ops():
             op = dict(op, confusable=gi)
             cat.append(op)
+    if check == 'C16':
+        # every class constructed with its defaults (shared-default
+        # territory), so that any class meets itself within a history
+        for name in classes:
+            op = {'op': 'construct', 'frame': {'k': 'method', 'cls': name,
+                                               'ch': 0, 'args': {}}}
+            cat.append(op)
+            twins.append({'op': 'marshal', 'frame': op['frame']})
+        op = {'op': 'construct', 'frame': {'k': 'header', 'ch': 1,
+                                           'body_size': 0, 'props': {},
+                                           'noprops': True}}
+        cat.append(op)
+        twins.append({'op': 'marshal', 'frame': op['frame']})
     if check in ('C12', 'C16'):
         # tables as foreign peers send them (decoded, then held, edited and
         # re-encoded by the caller), tables with run-wide distinct keys, and
@@ -600,6 +613,36 @@ def build_catalogue(check, seed, size):
 
 # ------------------------------------------------------------------- traces
 
+_BY_CLASS = {}
+
+
+def ops_by_class(cat):
+    """method class name -> catalogue ops that construct, encode or decode
+    a frame of that class ('header' for content headers)."""
+    k = id(cat)
+    if k not in _BY_CLASS:
+        _BY_CLASS.clear()
+        m = {}
+        for o in cat:
+            name = None
+            if 'frame' in o:
+                f = o['frame']
+                name = f.get('cls') if f['k'] == 'method' else (
+                    'header' if f['k'] == 'header' else None)
+            elif o['op'] == 'unmarshal' and not o.get('damaged'):
+                b = bytes.fromhex(o['b'][:22])
+                if len(b) >= 11 and b[0] == 1:
+                    c_ = lib.commands.INDEX_MAPPING.get(
+                        int.from_bytes(b[7:11], 'big'))
+                    name = c_.name if c_ else None
+                elif b[:1] == b'\x02':
+                    name = 'header'
+            if name:
+                m.setdefault(name, []).append(o)
+        _BY_CLASS[k] = m
+    return _BY_CLASS[k]
+
+
 _FAULTY = {}
 
 
@@ -622,7 +665,9 @@ def setattr_op(r, ref, src_op):
         slots = list(cls.__slots__)
         if not slots:
             return None
-        name = r.choice(slots)
+        tables = [s_ for s_ in slots if cls.amqp_type(s_) == 'table']
+        name = r.choice(tables) if tables and r.random() < 0.7 \
+            else r.choice(slots)
         wire = cls.amqp_type(name)
         on_props = False
     elif f['k'] == 'header':
@@ -685,6 +730,15 @@ def gen_trace(rng, check, population, tier, cat):
         tr['tz0'] = r.choice(ZONES)
     if check == 'C11':
         tr['switch0'] = r.random() < 0.5
+    # a focus class per run (rotating with the run index): a third of the
+    # calls construct, encode or decode frames of that one class, so every
+    # class meets itself within a history in every batch
+    focus_ops = []
+    if check in ('C16', 'C12'):
+        bc = ops_by_class(cat)
+        names = sorted(bc)
+        if names:
+            focus_ops = bc[names[getattr(r, 'run_index', 0) % len(names)]]
     threads = []
     carry = []
     for t in range(n):
@@ -722,15 +776,25 @@ def gen_trace(rng, check, population, tier, cat):
                          if (threads[tt] if tt < len(threads) else prog)[j]
                          ['op'] in ('construct', 'unmarshal', 'dec')]
                 if cands:
-                    ref = list(r.choice(cands))
+                    # prefer constructed frames (they can be edited by
+                    # attribute) over decoded ones
+                    cons = [c_ for c_ in cands if (
+                        threads[c_[0]] if c_[0] < len(threads) else prog)
+                        [c_[1]]['op'] == 'construct']
+                    ref = list(r.choice(cons if cons and r.random() < 0.6
+                                        else cands))
                     c2 = r.random()
                     if c2 < (0.40 if check == 'C16' else 0.25):
                         prog.append({'op': 'mutate', 'ref': ref})
-                    elif c2 < (0.50 if check == 'C16' else 0.40):
+                        if r.random() < 0.6:   # ... and send it again
+                            prog.append({'op': 'marshal_slot', 'ref': ref})
+                    elif c2 < (0.55 if check == 'C16' else 0.50):
                         sop = (threads[ref[0]] if ref[0] < len(threads)
                                else prog)[ref[1]]
                         sa = setattr_op(r, ref, sop)
-                        prog.append(sa or {'op': 'marshal_slot', 'ref': ref})
+                        if sa:
+                            prog.append(sa)
+                        prog.append({'op': 'marshal_slot', 'ref': ref})
                     else:
                         prog.append({'op': 'marshal_slot', 'ref': ref})
                     continue
@@ -743,6 +807,8 @@ def gen_trace(rng, check, population, tier, cat):
                                 else r.choice(back))
                     continue
             op = r.choice(cat)
+            if focus_ops and r.random() < 0.3:
+                op = r.choice(focus_ops)
             if population == 'long_faulty' and r.random() < 0.5:
                 faulty = faulty_ops(cat)
                 if faulty:
